@@ -41,6 +41,7 @@ struct ScriptSource {
     Script script;
     bool scribble = false;    // a driver may leave anything in the caller's location when it reports an error or transfers nothing: fill it with SLIP END octets
     std::vector<std::pair<size_t, int>> transient;   // (stream position, negative code): reported once when a call finds the stream at that position, nothing is transferred by that call
+    std::function<void()> pos_hook; size_t pos_hook_at = 0;   // runs once, at the beginning of the first driver call that finds the stream at or behind that position (a driver that services another port - through the library - while it waits)
     Source src;
     bool chunk;
 
@@ -64,6 +65,7 @@ struct ScriptSource {
         vp::tick();
         calls++;
         if (n > maxask) maxask = n;
+        if (pos_hook && pos >= pos_hook_at) { auto h = std::move(pos_hook); pos_hook = nullptr; h(); }
         if (err_at >= 0 && pos >= (size_t)err_at) return scrib(out, n, err);
         for (size_t i = 0; i < transient.size(); i++) if (transient[i].first == pos) { int code = transient[i].second; transient.erase(transient.begin() + (long)i); return scrib(out, n, code); }
         int s = script.next();
